@@ -27,7 +27,8 @@
   reg_load2 of a known field (`nxRegLoad2_accept`, in `ActionKnown`), packet-out through the TOP-LEVEL `Spec.walk` for any
   payload with a repeatable Len() (`packetOut_topWalk`).
   NAT actions built by ANY setter history (`nxCTNAT_accept`, in `ActionKnown`; walker side `Walk7.accept_nat`).
-  Not done (time): conntrack (needs a fuel-indexed acceptance for the nested action list) / learn / dec-ttl-cnt-ids
+  Conntrack, one nesting level, stated separately with two explicit hypotheses (`accept_ct`, `conntrack_accept`).
+  Not done (time): conntrack inside `ActionKnown`, its example / learn / dec-ttl-cnt-ids
   actions, the BundleAdd frame, learn specs, tun_metadata fields (variable length).
   No encoding produced by the model was found that the walker rejects.
 -/
@@ -1649,5 +1650,71 @@ example : ∃ m, exFields.foldlM (fun acc f => Match.addField acc f) Match.new =
           · exact ⟨actionWF_output 7, known_output 7⟩
           · exact ⟨actionWF_group 3, known_group 3⟩) h
   exact ⟨_, hwalk⟩
+
+/-! ### conntrack: one level of nesting through the real walker -/
+
+/-- walker side: a conntrack action (Nicira subtype 35) that declares its own bytes, has zero bytes 19-21 and whose
+    bytes behind the 24 fixed ones are a concatenation of accepted actions is accepted for every nesting bound that
+    leaves the nested list enough fuel, with one subtree per nested action -/
+theorem accept_ct (b : Bytes) (nested : List Bytes) (h24 : 24 ≤ b.length) (hal : b.length % 8 = 0)
+    (h0 : beAt b 0 2 = 65535) (h2 : beAt b 2 2 = b.length) (hv : beAt b 4 4 = 0x2320) (hsb : beAt b 8 2 = 35)
+    (hz : allZero (slice b 19 3) = true) (hd : b.drop 24 = nested.flatten)
+    (hacc : ∀ x ∈ nested, Accepted x ∧ 0 < x.length) (fuel : Nat) (tail : Bytes) (hf : nested.length + 1 < fuel) :
+    walkAction (fuel + 1) (b ++ tail) = .ok (.node "nx 35" b (nested.map actTree), b.length) := by
+  rw [walkAction_tail b tail fuel (by omega) hal h2]
+  have e0 : u16At b 0 = 65535 := by rw [u16At_eq_beAt _ _ (by omega), h0]
+  have e2 : u16At b 2 = b.length := by rw [u16At_eq_beAt _ _ (by omega), h2]
+  have e4 : u32At b 4 = 0x2320 := by rw [u32At_eq_beAt _ _ (by omega), hv]
+  have e8 : u16At b 8 = 35 := by rw [u16At_eq_beAt _ _ (by omega), hsb]
+  have t2 : b.take b.length = b := List.take_length
+  have l1 : ¬ b.length < 4 := by omega
+  have l2 : ¬ (b.length < 8 ∨ b.length % 8 ≠ 0) := by omega
+  have l3 : ¬ b.length < b.length := by omega
+  have l4 : ¬ b.length < 16 := by omega
+  have l5 : ¬ b.length < 24 := by omega
+  have hn : nxFixed.lookup 35 = none := by decide
+  have z := zerosAt_ok b 19 3 "ct" hz
+  have hw := walkActions_flatten nested hacc fuel hf
+  rw [← hd] at hw
+  simp only [walkAction, e0, e2, e4, e8, t2, l1, l2, l3, l4, l5, hn, z, hw, if_false, ne_eq, not_true_eq_false]
+  rfl
+
+/-- CONNTRACK through the real walker (one nesting level): a conntrack action with the Nicira CT header (any stored
+    length), any flags / zone / table / alg fields, whose nested actions — as Len() leaves them — are well-formed and
+    of the known kinds (incl. NAT of any setter history), below 64 KiB, and whose bytes 19-21 are zero (`hz`, a
+    decidable condition on the encoding: the model copies the 3-byte pad array there): `walkAction` accepts it for every
+    nesting bound ≥ #nested + 3, whatever follows, with one subtree per nested action -/
+theorem conntrack_accept (hd a b c d : V) (pad : Bytes) (f : V) (acts : List V) (hpad : pad.length ≤ 3) (bs : Bytes) (v2 : V)
+    (ln : Nat) (hn : nxhdr (.obj "NXActionConnTrack" [hd, a, b, c, d, .bytes pad, f, .list acts]) = some (0xffff, ln, 0x2320, 35))
+    (h : NXActionConnTrack.marshalM (.obj "NXActionConnTrack" [hd, a, b, c, d, .bytes pad, f, .list acts]) = .ok (bs, v2))
+    (hwf : ∀ ls acts1, mapM2 (Action.lenD Action.encDepth) acts = .ok (ls, acts1) → ∀ x ∈ acts1,
+      ActionWFD (Action.encDepth - 1) x ∧ ActionKnown x)
+    (hlt : ∀ ls acts1, mapM2 (Action.lenD Action.encDepth) acts = .ok (ls, acts1) → 24 + (ls.map UInt16.toNat).sum < 65536)
+    (hz : allZero (slice bs 19 3) = true)
+    (hdep : ∀ x bx y, Action.marshalD Action.encDepth x = .ok (bx, y) → ActionKnown x → Accepted bx) :
+    ∃ nested : List Bytes, nested.length = acts.length ∧ ∀ fuel tail, acts.length + 1 < fuel →
+      walkAction (fuel + 1) (bs ++ tail) = .ok (.node "nx 35" bs (nested.map actTree), bs.length) := by
+  obtain ⟨ls, acts1, bss, acts2, hm, hmm, hfit⟩ := nxConnTrack_embeds (Action.lenD Action.encDepth) (Action.marshalD Action.encDepth)
+    (fun x l y bx z hx hy => C06b.action_sizeD _ y l y bx z (Action.lenD_idem _ x l y hx) hy) hd a b c d pad f acts hpad bs v2 h
+  obtain ⟨_, hw⟩ := nxConnTrack_wire _ _ _ bs v2 _ _ _ _ hn h
+  have hlens := mapM2_lengths _ _ acts ls acts1 bss acts2 hm hmm
+    (fun x _ l y bx z hx hy => C06b.action_sizeD _ y l y bx z (Action.lenD_idem _ x l y hx) hy)
+  have hflat : bss.flatten.length = (ls.map UInt16.toNat).sum := by rw [flatten_length_sum, hlens]
+  obtain ⟨e1, e2⟩ := hfit (by rw [hflat]; exact hlt ls acts1 hm)
+  have hacc : ∀ bx ∈ bss, Accepted bx ∧ 0 < bx.length := by
+    intro bx hbx
+    obtain ⟨x, hx, y, hxy⟩ := mapM2_mem_bytes _ _ _ _ hmm bx hbx
+    have hk := hwf ls acts1 hm x hx
+    have hdcl := action_declaresD (Action.encDepth - 1) x hk.1 bx y hxy
+    exact ⟨hdep x bx y hxy hk.2, by have := hdcl.2.1; omega⟩
+  have hdc : ∀ bx ∈ bss, Declares bx := by
+    intro bx hbx
+    obtain ⟨x, hx, y, hxy⟩ := mapM2_mem_bytes _ _ _ _ hmm bx hbx
+    exact action_declaresD (Action.encDepth - 1) x (hwf ls acts1 hm x hx).1 bx y hxy
+  have hal := flatten_aligned bss (fun bx hbx => (hdc bx hbx).2.2)
+  have hN := hw (by omega)
+  have hcnt : bss.length = acts.length := by rw [(mapM2_length _ _ _ _ hmm).1, (mapM2_length _ _ _ _ hm).2]
+  refine ⟨bss, hcnt, fun fuel tail hf => ?_⟩
+  exact accept_ct bs bss (by omega) (by omega) hN.code_ok hN.len_ok hN.vendor_ok hN.sub_ok hz e1 hacc fuel tail (by omega)
 
 end OFV.Props.C02c
